@@ -202,4 +202,8 @@ class SegwitChecker(SolutionChecker):
                     "this version witness program not yet supported",
                     errno.DISCOURAGE_UPGRADABLE_WITNESS_PROGRAM,
                 )
+            else:
+                # a witness version without rules yet succeeds unevaluated and
+                # leaves exactly one true element (so CLEANSTACK holds)
+                return b"", [self.VM.VM_TRUE], flags, None  # type: ignore[attr-defined]
         return None
